@@ -379,6 +379,9 @@ def stdClass (fs : Fields) (j : J) : Option StdClass :=
 def StdClass.name : StdClass → String
   | .null => "null" | .caseFold => "case-fold" | .dottedKey => "dotted-key" | .dupKey => "duplicate-key"
 
+/-- a sequence of loads in one process through the loader with the merging: no state between them. -/
+def loadAllM (o : Opts) (calls : List (Fields × J)) : List (R Val) := calls.map fun c => loadTreeM o c.1 c.2
+
 /-! ### the config center (core/configcenter): a CALLER that selects the loader from a `Type` string (round 5d)
 
 `NewConfigCenter[T](Config{Type}, subscriber)`: `Unmarshaler(strings.ToLower(Type))` (registry json / toml / yaml →
